@@ -213,9 +213,9 @@ class ComputeTypeVisitor(Visitor.DefaultVisitor):
         for importedModule in module.GetImports():
             irModule = self.__loader.Load(importedModule)
 
-            for moduleType in irModule.Metadata["types"]:
-                assert isinstance(moduleType, types.Type)
-                ctx[-1].RegisterType(moduleType.GetName(), moduleType)
+            for name, variableType in irModule.Metadata["types"].items():
+                assert isinstance(variableType, types.Type)
+                ctx[-1].RegisterVariable(name, variableType)
             for func in irModule.Metadata["functions"]:
                 assert isinstance(func, types.Function)
                 ctx[-1].RegisterFunction(func.GetName(), func)
